@@ -7,7 +7,7 @@ definitions).  Specification: `Joined` (Proofs/PartialSpec.lean) = equivalence c
 J1 (equal old label, both rows outside the range), J2 (equal in-range label), J3 (old label crossing
 the first / last frame of the range).
 
-The theorems are about `Rule.fixed`, i.e. the code after `repo-fixes/C13-reconnect-partial.patch`.
+The theorems are about `Rule.fixed`, i.e. the code after `repo-fixes/C13-*.patch (reconnect-id-collisions, empty-frame-in-range, range-outside-data)`.
 For the code as found (`Rule.orig`) the property is false; the formal counter-examples are
 `collision_witness`, `fresh_collision_witness` and `unsound_merge_witness` below.
 
